@@ -9,9 +9,15 @@ import (
 
 // checkGuard enforces the lock discipline declared by //verif:guard directives: every load/store of a guarded
 // field must happen while the named mutex (relative to the same enclosing struct) is held in a sufficient mode.
-func (c *Ctx) checkGuard(p PtrV, write bool) {
+type elemGuard struct {
+	mutex PtrV
+	g     guardSpec
+}
+
+// checkGuard ... returns the guard that matched p exactly (p is the guarded field itself), if any.
+func (c *Ctx) checkGuard(p PtrV, write bool) (matched *elemGuard) {
 	gs := c.shared.guards
-	if len(gs) == 0 || p.obj == nil || p.obj.t == nil || c.extra["guardsOff"] != nil {
+	if len(gs) == 0 || p.obj == nil || c.extra["guardsOff"] != nil {
 		return
 	}
 	if p.obj.allocFn != nil && c.cur != nil && p.obj.allocFn == c.cur.fn {
@@ -19,6 +25,13 @@ func (c *Ctx) checkGuard(p PtrV, write bool) {
 	}
 	if c.cur == nil || c.isHarnessFn(c.cur.fn) {
 		return // harness code builds and inspects state outside any lock by design
+	}
+	if eg := p.obj.elemGuard; eg != nil {
+		c.checkLockMode(eg.mutex, eg.g, write, "[i]")
+		return
+	}
+	if p.obj.t == nil {
+		return
 	}
 	t := p.obj.t
 	for k := 0; k <= len(p.path); k++ {
@@ -32,7 +45,9 @@ func (c *Ctx) checkGuard(p PtrV, write bool) {
 					if g.structName != name {
 						continue
 					}
-					c.checkGuardAt(p, k, n, g, write)
+					if eg := c.checkGuardAt(p, k, n, g, write); eg != nil {
+						matched = eg
+					}
 				}
 			}
 		}
@@ -48,6 +63,7 @@ func (c *Ctx) checkGuard(p PtrV, write bool) {
 			return
 		}
 	}
+	return
 }
 
 func fieldPath(t types.Type, names []string) ([]int, bool) {
@@ -73,18 +89,18 @@ func fieldPath(t types.Type, names []string) ([]int, bool) {
 	return idx, true
 }
 
-func (c *Ctx) checkGuardAt(p PtrV, k int, n *types.Named, g guardSpec, write bool) {
+func (c *Ctx) checkGuardAt(p PtrV, k int, n *types.Named, g guardSpec, write bool) *elemGuard {
 	fidx, ok := fieldPath(n, strings.Split(g.field, "."))
 	if !ok {
 		c.unsupported("guard field path not found: " + g.structName + " " + g.field)
 	}
 	rest := p.path[k:]
 	if len(rest) < len(fidx) {
-		return
+		return nil
 	}
 	for i := range fidx {
 		if rest[i] != fidx[i] {
-			return
+			return nil
 		}
 	}
 	midx, ok := fieldPath(n, strings.Split(g.mutex, "."))
@@ -92,6 +108,14 @@ func (c *Ctx) checkGuardAt(p PtrV, k int, n *types.Named, g guardSpec, write boo
 		c.unsupported("guard mutex path not found: " + g.structName + " " + g.mutex)
 	}
 	mp := PtrV{obj: p.obj, path: append(append([]int{}, p.path[:k]...), midx...)}
+	c.checkLockMode(mp, g, write, "")
+	if len(rest) == len(fidx) {
+		return &elemGuard{mutex: mp, g: g}
+	}
+	return nil
+}
+
+func (c *Ctx) checkLockMode(mp PtrV, g guardSpec, write bool, suffix string) {
 	l := c.lockOf(mp)
 	okMode := l.writer || (!write && l.readers > 0)
 	if okMode {
@@ -101,7 +125,7 @@ func (c *Ctx) checkGuardAt(p PtrV, k int, n *types.Named, g guardSpec, write boo
 	if write {
 		mode = "write"
 	}
-	label := "guard:" + g.structName + "." + g.field + ":" + mode
+	label := "guard:" + g.structName + "." + g.field + suffix + ":" + mode
 	st := c.shared.assertStat(label)
 	c.shared.mu.Lock()
 	st.Reached++
@@ -114,7 +138,7 @@ func (c *Ctx) checkGuardAt(p PtrV, k int, n *types.Named, g guardSpec, write boo
 		}
 		c.solver.EndCheck()
 	}
-	c.reportViolation("guard", label, "unguarded "+mode+" of "+g.structName+"."+g.field+c.where(), vec, "")
+	c.reportViolation("guard", label, "unguarded "+mode+" of "+g.structName+"."+g.field+suffix+c.where(), vec, "")
 }
 
 // isHarnessFn reports whether fn is defined in a harness file (zz_verif_*.go).
